@@ -37,7 +37,7 @@ def int_to_str(t):
 
 
 class Frame:
-    __slots__ = ("loc", "rel", "cls", "func", "contract", "loop_ord", "ghost_before", "ghost_after", "fname", "unbound_locals")
+    __slots__ = ("loc", "rel", "cls", "func", "contract", "loop_ord", "ghost_before", "ghost_after", "fname", "unbound_locals", "narrow")
 
 
 class Verifier(Engine):
@@ -109,6 +109,11 @@ class Verifier(Engine):
 
     def ev_Attribute(self, n):
         base = self.ev(n.value)
+        nar = getattr(self.frame, "narrow", None)
+        if nar and isinstance(base, V) and base.ty.kind == "ref":
+            key = ast.unparse(n.value)
+            if key in nar:
+                base = V(Ty("ref", nar[key]), base.t)
         return self.getattr(base, n.attr, n)
 
     def getattr(self, base, attr, node=None):
@@ -1185,6 +1190,7 @@ class Verifier(Engine):
         fr.loop_ord = self._loop_ordinals(fdef)
         fr.unbound_locals = self._assigned_locals(fdef) - set(env)
         fr.ghost_before, fr.ghost_after = {}, {}
+        fr.narrow = None
         self.frame = fr
         self.st.loc = env
         self.call_depth += 1
@@ -1344,6 +1350,11 @@ class Verifier(Engine):
                 continue
             if key == "$alloc":
                 allocates = True
+                continue
+            if key.startswith("region:"):
+                rg = "#" + key.split(":", 1)[1]
+                for hk in [k_ for k_ in list(self.st.heap) if k_.startswith("$") and k_.endswith(rg)]:
+                    self.hset(hk, self.fresh("H_" + hk, self.st.heap[hk].sort()))
                 continue
             cname, attr = key.split(".", 1)
             fk = self.field_key(cname, attr)
